@@ -940,6 +940,29 @@ def renest_guard_clauses(tree):
     return count
 
 
+def flatten_else_after_exit(tree):
+    """P33: `if c: ..; <exit>  else: B` -> `if c: ..; <exit>` followed by B (the else of a branch that always leaves is the rest of
+    the block).  elif chains are flattened from the top."""
+    count = 0
+    changed = True
+    while changed:
+        changed = False
+        for n in ast.walk(tree):
+            for fld in ("body", "orelse", "finalbody"):
+                lst = getattr(n, fld, None)
+                if not (isinstance(lst, list) and lst and isinstance(lst[0], ast.stmt)):
+                    continue
+                for i, st in enumerate(lst):
+                    if isinstance(st, ast.If) and st.orelse and _always_exits(st.body):
+                        rest = st.orelse
+                        st.orelse = []
+                        lst[i + 1:i + 1] = rest
+                        count += 1
+                        changed = True
+                        break
+    return count
+
+
 # ---------------------------------------------------------------------------------------- P1 / P2 / P3
 def _is_list_literal(v):
     return isinstance(v, ast.List) and not any(isinstance(e, ast.Starred) for e in v.elts)
@@ -960,6 +983,36 @@ def _is_boolean_expr(v):
 class _Canon(ast.NodeTransformer):
     def __init__(self):
         self.count = 0
+
+    def _const_right(self, test):
+        # P34: in a test position (if / while / conditional expression / assert: Python truth values, never a symbolic relation)
+        # CONST == x -> x == CONST, CONST != x -> x != CONST
+        for c in ast.walk(test):
+            if isinstance(c, ast.Compare) and len(c.ops) == 1 and isinstance(c.ops[0], (ast.Eq, ast.NotEq)) and isinstance(c.left, ast.Constant) \
+                    and not isinstance(c.comparators[0], ast.Constant):
+                c.left, c.comparators = c.comparators[0], [c.left]
+                self.count += 1
+
+    def visit_comprehension(self, n):
+        for t in n.ifs:
+            self._const_right(t)
+        self.generic_visit(n)
+        return n
+
+    def visit_IfExp(self, n):
+        self._const_right(n.test)
+        self.generic_visit(n)
+        return n
+
+    def visit_While(self, n):
+        self._const_right(n.test)
+        self.generic_visit(n)
+        return n
+
+    def visit_Assert(self, n):
+        self._const_right(n.test)
+        self.generic_visit(n)
+        return n
 
     def visit_Compare(self, n):
         # P14: B == True / B is True -> B;  B == False / B != True -> not B   (B syntactically boolean)
@@ -1039,6 +1092,7 @@ class _Canon(ast.NodeTransformer):
         return n
 
     def visit_If(self, n):
+        self._const_right(n.test)
         self.generic_visit(n)
         # P20: `if not c: B else: A` -> `if c: A else: B` (both branches present, the else branch not an elif chain)
         if n.orelse and n.body and isinstance(n.test, ast.UnaryOp) and isinstance(n.test.op, ast.Not) and not (len(n.orelse) == 1 and isinstance(n.orelse[0], ast.If)) \
@@ -1290,8 +1344,113 @@ def _aug_on_known_lists(tree):
     return count
 
 
+def _literal_names(node):
+    """a literal tuple/list of string constants -> list of str, else None"""
+    if isinstance(node, (ast.Tuple, ast.List)) and node.elts and all(isinstance(e, ast.Constant) and isinstance(e.value, str) for e in node.elts):
+        return [e.value for e in node.elts]
+    if isinstance(node, (ast.Tuple, ast.List)) and node.elts and all(isinstance(e, ast.Tuple) and e.elts and all(isinstance(x, ast.Constant) for x in e.elts) for e in node.elts):
+        return [tuple(x.value for x in e.elts) for e in node.elts]
+    return None
+
+
+def unroll_name_loops(prog):
+    """P31: `for name in NAMES: setattr(self, name, v)` with NAMES a literal tuple of strings (written in place or bound at class
+    level, found through the bases) is unrolled; with P30 the block of attribute assignments it stands for comes back.  Only loops
+    whose variable is used as the name argument of setattr/getattr are touched, at most 40 elements, no break/continue/else."""
+    count = 0
+    for m in prog.modules.values():
+        for cls in [n for n in m.tree.body if isinstance(n, ast.ClassDef)]:
+            table = {}
+            for k in ([prog.classes[c.name] for c in prog.mro(cls.name)] if cls.name in prog.classes else []):
+                for st in k.node.body:
+                    if isinstance(st, ast.Assign) and len(st.targets) == 1 and isinstance(st.targets[0], ast.Name):
+                        v = _literal_names(st.value)
+                        if v is not None:
+                            table.setdefault(st.targets[0].id, (st.value, v))
+            for fn in [n for n in cls.body if isinstance(n, ast.FunctionDef)]:
+                selfname = fn.args.args[0].arg if fn.args.args else None
+
+                def names_of(it):
+                    v = _literal_names(it)
+                    if v is not None:
+                        return it
+                    if isinstance(it, ast.Attribute) and it.attr in table:
+                        base = ast.unparse(it.value)
+                        if base in (selfname, "type(%s)" % selfname, "%s.__class__" % selfname) or base in prog.classes:
+                            return table[it.attr][0]
+                    return None
+
+                class U(ast.NodeTransformer):
+                    def visit_FunctionDef(self, n):
+                        if n is fn:
+                            self.generic_visit(n)
+                        return n
+
+                    def visit_For(self, n):
+                        nonlocal count
+                        self.generic_visit(n)
+                        lit = names_of(n.iter)
+                        if lit is None or n.orelse or len(lit.elts) > 40:
+                            return n
+                        tnames = [n.target.id] if isinstance(n.target, ast.Name) else ([e.id for e in n.target.elts] if isinstance(n.target, ast.Tuple) and all(isinstance(e, ast.Name) for e in n.target.elts) else None)
+                        if tnames is None:
+                            return n
+                        if isinstance(n.target, ast.Tuple) and not all(isinstance(e, ast.Tuple) and len(e.elts) == len(tnames) for e in lit.elts):
+                            return n
+                        body_nodes = [x for st in n.body for x in ast.walk(st)]
+                        if any(isinstance(x, (ast.Break, ast.Continue, ast.FunctionDef, ast.Lambda, ast.Yield, ast.YieldFrom)) for x in body_nodes):
+                            return n
+                        if any(isinstance(x, ast.Name) and x.id in tnames and isinstance(x.ctx, ast.Store) for x in body_nodes):
+                            return n
+                        uses = [x for x in body_nodes if isinstance(x, ast.Call) and isinstance(x.func, ast.Name) and x.func.id in ("setattr", "getattr", "hasattr", "delattr")
+                                and len(x.args) >= 2 and isinstance(x.args[1], ast.Name) and x.args[1].id in tnames]
+                        if not uses:
+                            return n
+                        out = []
+                        for e in lit.elts:
+                            vals = {tnames[0]: e} if isinstance(n.target, ast.Name) else dict(zip(tnames, e.elts))
+
+                            class S(ast.NodeTransformer):
+                                def visit_Name(self, x):
+                                    if x.id in vals and isinstance(x.ctx, ast.Load):
+                                        return ast.copy_location(copy.deepcopy(vals[x.id]), x)
+                                    return x
+                            for st in n.body:
+                                out.append(S().visit(copy.deepcopy(st)))
+                        count += 1
+                        return out
+                U().visit(fn)
+        if count:
+            ast.fix_missing_locations(m.tree)
+    return count
+
+
+def explicit_base_calls(prog):
+    """P32: super().m(a, ..) in a method of a class with exactly one base B -> B.m(self, a, ..) (the form the code base uses)."""
+    count = 0
+    for m in prog.modules.values():
+        for cls in [n for n in m.tree.body if isinstance(n, ast.ClassDef)]:
+            if len(cls.bases) != 1 or not isinstance(cls.bases[0], (ast.Name, ast.Attribute)):
+                continue
+            for fn in [n for n in cls.body if isinstance(n, ast.FunctionDef)]:
+                if not fn.args.args or any(isinstance(d, ast.Name) and d.id in ("staticmethod", "classmethod") for d in fn.decorator_list):
+                    continue
+                me = fn.args.args[0].arg
+                for c in ast.walk(fn):
+                    if isinstance(c, ast.Call) and isinstance(c.func, ast.Attribute) and isinstance(c.func.value, ast.Call) and isinstance(c.func.value.func, ast.Name) \
+                            and c.func.value.func.id == "super" and not c.func.value.args and not c.func.value.keywords:
+                        c.func.value = ast.copy_location(copy.deepcopy(cls.bases[0]), c.func.value)
+                        c.args = [ast.copy_location(ast.Name(id=me, ctx=ast.Load()), c)] + c.args
+                        count += 1
+        if count:
+            ast.fix_missing_locations(m.tree)
+    return count
+
+
 def canonicalise(prog):
     total = keyword_defaults(prog)
+    total += explicit_base_calls(prog)
+    total += unroll_name_loops(prog)
     izl = index_zip_loops(prog)
     if izl:
         prog.normalisation.setdefault("zip_loops_indexed", []).extend(izl)
@@ -1302,6 +1461,8 @@ def canonicalise(prog):
         c = _Canon()
         if os.environ.get("RKVERIF_P21", "0") == "1":   # experimental: re-nesting every guard clause changes too many baseline shapes; the rules read paths instead (ceval.run_path)
             c.count += renest_guard_clauses(m.tree)
+        if os.environ.get("RKVERIF_P33", "1") == "1":
+            c.count += flatten_else_after_exit(m.tree)
         c.visit(m.tree)
         c.count += _default_then_override(m.tree)
         c.count += _name_opti_handle(m.tree)
